@@ -10,7 +10,7 @@ fn main() {
     let (shard, of, tier): (usize, usize, String) = if pkg == "shardm" {
         (0, 1, "miri".to_owned())
     } else {
-        (pkg.trim_start_matches("shard").parse().unwrap(), 8, env::var("VERIF_FAMILY").unwrap_or_else(|_| "quick".to_owned()))
+        (pkg.trim_start_matches("shard").parse().unwrap(), 16, env::var("VERIF_FAMILY").unwrap_or_else(|_| "quick".to_owned()))
     };
     let family = defgen::family(&tier);
     let mut glue = String::new();
@@ -25,11 +25,14 @@ fn main() {
         fs::write(out.join(&gen_file), &code).unwrap();
         let module = format!("d{}", idx);
         glue.push_str(&defgen::emit_glue(spec, &built, &module, &gen_file, &code));
+        // MAX_SIZE and MAX_SIZE + 1 (odd strides in vectors) always; MAX_SIZE + 5 in the thorough family only
+        let third = if tier == "thorough" { format!("Some({m}::instantiate::<{{ {m}::gen::MAX_SIZE + 5 }}>)", m = module) } else { "None".to_owned() };
         writeln!(
             registry,
-            "        reccore::DefEntry {{ name: {:?}, max_size: {m}::max_size, instantiate: [{m}::instantiate::<{{ {m}::gen::MAX_SIZE }}>, {m}::instantiate::<{{ {m}::gen::MAX_SIZE + 1 }}>, {m}::instantiate::<{{ {m}::gen::MAX_SIZE + 5 }}>] }},",
+            "        reccore::DefEntry {{ name: {:?}, max_size: {m}::max_size, instantiate: [Some({m}::instantiate::<{{ {m}::gen::MAX_SIZE }}>), Some({m}::instantiate::<{{ {m}::gen::MAX_SIZE + 1 }}>), {third}] }},",
             spec.name,
-            m = module
+            m = module,
+            third = third
         )
         .unwrap();
     }
